@@ -135,7 +135,7 @@ pub fn generate(prop: &str, rng: &mut Rng, tier: Tier) -> Scenario {
         }
         let messages = if g.chance(1, 4) { vec![(g.below(10_000), *g.pick(&[0u8, 0, 8, 40]))] } else { vec![] };
         // inputs: mostly all deployed callable contracts; sometimes a subset; rarely the extra one
-        let drop_some = mix.wild >= 8;
+        let drop_some = mix.wild >= 5;
         let mut input_contracts: Vec<u8> = (0..n_dep as u8).filter(|_| !(drop_some && g.chance(1, 6))).collect();
         if drop_some && g.chance(1, 6) {
             input_contracts.push(n_dep as u8);
